@@ -94,7 +94,7 @@ def generate(seed, tier, index=None):
         o['site'] = w.randint(o['L'] + 8, clen - o['L'] - 8)
         frags = [f for f in frags if f['ctg'] != ci] + [o]
     params = {'method': method, 'encoded': w.random() < 0.7, 'lib': 'LIB', 'stale': stale, 'tier': tier, 'no_rejects': no_rejects, 'special_layout': special}
-    mode = {'mp': mp, 'no_rejects': params['no_rejects'], 'name': 'multi' if mp else 'single', 'width': st.schedule.randint(1, 3), 'schedule': {'policy': 'seeded'}, 'seed': seed}
+    mode = {'mp': mp, 'no_rejects': params['no_rejects'], 'isolation': 'fork' if (mp and (h >> 3) % 2) else 'inproc', 'name': 'multi' if mp else 'single', 'width': st.schedule.randint(1, 3), 'schedule': {'policy': 'seeded'}, 'seed': seed}
     return {'params': params, 'genome': genome, 'workload': frags, 'mode': mode}   # 'plans' absent -> enumerated by execute()
 
 
@@ -175,7 +175,10 @@ def execute(case):
         both = {i for i, c in collections.Counter(r['id'] for r in P).items() if c == 2}
         want = collections.Counter(tc.conservation_key(r, both) for r in P)
         # ---- fault-free traced baseline: crash-point map, seam call counts
-        base = tc.run_mode(d, case, dict(mode, trace='record', faults=[]), 'base', in_bam=in_bam)
+        # the crash-point map is recorded with in-process workers (lines executed inside forked workers are not visible to the tracer's owner)
+        base = tc.run_mode(d, case, dict(mode, trace='record', faults=[], isolation='inproc'), 'base', in_bam=in_bam)
+        if mode.get('isolation') == 'fork':
+            probe('forked_worker_processes')
         bres = base['res']
         steps += bres.get('sched_steps', 0)
         log.add('baseline', base['status'], bres.get('exception'), len(bres.get('crossings') or []))
